@@ -242,17 +242,28 @@ func vDeleteClaim(br, target blob.Ref, when time.Time) schema.Claim {
 	return c
 }
 
-func VK06bDeletesAcrossRestart() {
+func VK06bDeletesAcrossRestart() { vDeletesAcrossRestart(false) }
+
+// K06b': the batch commit of one of the delete claims fails (a transient KV failure): the call
+// reports the error, no row is written, and the live index must not remember the deletion either.
+func VK06bDeletesCommitFault() { vDeletesAcrossRestart(true) }
+
+func vDeletesAcrossRestart(fault bool) {
 	kv := &vmodel.KV{}
 	ix, err := New(kv)
 	vrt.Assert(err == nil, "index.New succeeds")
 	nodes := []blob.Ref{blob.VerifSmallRef(1)}
+	all := []blob.Ref{blob.VerifSmallRef(1)}
 	kv.Set("meta:"+nodes[0].String(), "100|application/json; camliType=permanode")
 	kv.Set("signerkeyid:"+blob.VerifSmallRef(200).String(), "KEY1") // written by populateClaim for every claim of this signer
 	vr := &jsonsign.VerifyRequest{SignerKeyId: "KEY1", CamliSigner: blob.VerifSmallRef(200)}
+	failAt := 0
+	if fault {
+		failAt = 1 + vrt.Choice(3)
+	}
 	for i := 1; i <= 3; i++ {
 		d := blob.VerifSmallRef(byte(10 + i))
-		t := nodes[vrt.Choice(i)] // targets the permanode or an earlier delete claim
+		t := nodes[vrt.Choice(len(nodes))] // targets the permanode or an earlier (indexed) delete claim
 		when := time.Unix(int64(1000+10*i), 0)
 		cl := vDeleteClaim(d, t, when)
 		// the rows and cache updates of a received delete claim, by the real populateDeleteClaim + commit
@@ -260,17 +271,26 @@ func VK06bDeletesAcrossRestart() {
 		perr := ix.populateDeleteClaim(context.Background(), cl, vr, mm)
 		vrt.Assert(perr == nil, "populateDeleteClaim succeeds when the target is indexed")
 		mm.noteDelete(cl)
-		vrt.Assert(ix.commit(mm) == nil, "commit succeeds")
-		nodes = append(nodes, d)
+		if i == failAt {
+			kv.Fault = func(op string) bool { return op == "commit" }
+			cerr := ix.commit(mm)
+			kv.Fault = nil
+			vrt.Assert(cerr != nil, "a failed batch commit is reported")
+			vrt.Cover("commit failed")
+		} else {
+			vrt.Assert(ix.commit(mm) == nil, "commit succeeds")
+			nodes = append(nodes, d)
+		}
+		all = append(all, d)
 	}
 	ix2, err := New(kv) // restart over the same rows
 	vrt.Assert(err == nil, "re-opening the index succeeds")
-	for _, n := range nodes {
+	for _, n := range all {
 		vrt.Assert(ix.IsDeleted(n) == ix2.IsDeleted(n), "deletion status is the same after a restart (index without corpus)")
 	}
 	c, err := NewCorpusFromStorage(kv)
 	vrt.Assert(err == nil, "corpus loads from the same rows")
-	for _, n := range nodes {
+	for _, n := range all {
 		vrt.Assert(ix.IsDeleted(n) == c.IsDeleted(n), "deletion status is the same in a corpus loaded from the rows")
 	}
 }
